@@ -48,3 +48,21 @@ def untraced_constructor(cls):
         return orig(self, *a, **kw)
     __init__._verif_untraced = True
     cls.__init__ = __init__
+
+
+def uuid_realizes_bytes():
+    """uuid.UUID.__init__ asserts `isinstance(bytes, bytes_)` in untraced stdlib code, which a CrossHair symbolic bytes
+    slice fails although it is a bytes value.  Wrap Hippolyzer's UUID constructor so that a `bytes=` argument is passed
+    through builtins.bytes() first (a no-op for real bytes; realizes a symbolic slice).  Semantics-preserving."""
+    import builtins
+    from hippolyzer.lib.base import datatypes
+    orig = datatypes.UUID.__init__
+    if getattr(orig, "_verif_wrapped", False):
+        return
+
+    def __init__(self, val=None, bytes=None, int=None):
+        if bytes is not None and type(bytes) is not builtins.bytes:
+            bytes = builtins.bytes(bytes)
+        return orig(self, val, bytes=bytes, int=int)
+    __init__._verif_wrapped = True
+    datatypes.UUID.__init__ = __init__
